@@ -42,6 +42,7 @@ def create_property_table(M, rep, R):
     from nixsa.dtable import TermEval, NOTHING, Unknown
     c3 = Ctx(M, coarse=False, unroll=2)
     c3.cfg.compose = False
+    c3.cfg.unroll_comps = True      # an any(...) / all(...) over the values is looked at element by element, like the loop form
     f = c3.member("Section", "create_property")
     cn_ = c3.member("Property", "create_new")
     vs = c3.member("Property", "values", "setters")
@@ -73,8 +74,12 @@ def create_property_table(M, rep, R):
                 return "p"
             if t[0] == "elem" and t[1] == ("param", "values_or_dtype"):
                 return data[t[2]] if t[2] < len(data) else NOTHING
-            if t[0] in ("call", "ocall") and isinstance(t[1], str) and t[1] == gd.qual:
-                return NOTHING
+            if t[0] in ("call", "ocall") and isinstance(t[1], str) and t[1] == gd.qual and t[2]:
+                # the (opaque) type inference applied to the list or one of its elements: stands for the element's type name
+                try:
+                    return pytype(value_of(t[2][0]))
+                except KeyError:
+                    return NOTHING
             return NOTHING
 
         def value_of(t, data=data):
@@ -282,6 +287,7 @@ def run(M, rep, tier, only=None):
     if f is not None:
         c2 = Ctx(M, coarse=False, unroll=2)
         c2.cfg.compose = False
+        c2.cfg.unroll_comps = True
         try:
             paths2 = c2.paths(f, "Property", max_paths=40000)
         except Budget:
